@@ -1,6 +1,6 @@
 (* PV.C17.ProofsFinal — the statements of Properties.v, proved from the lemma files. *)
 From Coq Require Import List Bool PArith Arith Permutation.
-From PV Require Import Base.PyData C17.Model C17.ProofsSched C17.ProofsDask C17.ProofsGraph C17.ProofsBuilder C17.Proofs C17.ProofsPrepare C17.ProofsDeclared C17.ProofsOptimize C17.ProofsQueries C17.ProofsFuse.
+From PV Require Import Base.PyData C17.Model C17.ProofsSched C17.ProofsDask C17.ProofsGraph C17.ProofsBuilder C17.Proofs C17.ProofsPrepare C17.ProofsDeclared C17.ProofsOptimize C17.ProofsQueries C17.ProofsFuse C17.ProofsOptimizeAll.
 Import ListNotations.
 
 Lemma topo_eval_is_sequential_evaluation_stmt :
@@ -303,3 +303,25 @@ Lemma fuse_steps_preserve_stmt :
     inline_only steps = true -> avoids r steps = true -> fuse_steps d steps = (dn, true) ->
     NoDup (dkeys dn) /\ length (dask_sched dn) = length dn /\ dask_get apply dn r = dask_get apply d r.
 Proof. exact inline_steps_preserve. Qed.
+
+(* ---- optimize.py as a whole ---------------------------------------------------------------------------- *)
+Lemma optimize_preserves_stmt :
+  forall (apply : positive -> list sval -> sval) (d : dsk) (steps : list fstep) (r : positive),
+    NoDup (dkeys d) -> length (dask_sched d) = length d -> dsk_no_fut d = true ->
+    inline_only steps = true -> avoids r steps = true -> snd (fuse_steps d steps) = true ->
+    dask_get_dist apply (fst (fuse_steps (scatter_dsk d) steps)) r = dask_get apply d r.
+Proof. exact optimize_preserves_lemma. Qed.
+
+Lemma optimized_workflow_sound_stmt :
+  forall (apply : positive -> list sval -> sval) (g : tgraph) (ids : task -> positive) (d : dsk) (o : task) (steps : list fstep),
+    output_tasks g = [o] -> as_dask_dict g ids = Some d -> g_keys_fresh g ids = true ->
+    length (topo_order g) = length (nodes g) ->
+    (forall t a, In t (nodes g) -> In a (tinputs t) -> no_fut a = true) ->
+    inline_only steps = true -> avoids results steps = true -> snd (fuse_steps d steps) = true ->
+    exists v, ref_get apply g = ROk v /\ dask_get_dist apply (fst (fuse_steps (scatter_dsk d) steps)) results = ROk v.
+Proof. exact optimized_workflow_sound_lemma. Qed.
+
+Lemma unpacking_commutes_with_inlining_stmt :
+  forall (steps : list fstep) (d : dsk), dsk_atomic d = true -> inline_only steps = true ->
+    unfut_dsk (fst (fuse_steps d steps)) = fst (fuse_steps (unfut_dsk d) steps).
+Proof. exact inline_steps_commute. Qed.
